@@ -67,12 +67,12 @@ def two(s, sep, f, g):
 
 
 def bdf(s):
-    # [0-9a-fA-F]{1,4}:[0-9a-fA-F]{2}:[0-9a-fA-F]{2}.[0-9a-fA-F]+   ('.' = any character but newline)
+    # PCI address domain:bus:device.function as documented by the example "0000:00:00.0" (hex digits, a literal dot)
     p = s.split(':', 2)
     if len(p) != 3 or not is_hex(p[0], 1, 4) or not is_hex(p[1], 2, 2):
         return False
     r = p[2]
-    return len(r) >= 4 and is_hex(r[:2], 2, 2) and r[2] != '\n' and is_hex(r[3:], 1, 10 ** 6)
+    return len(r) >= 4 and is_hex(r[:2], 2, 2) and r[2] == '.' and is_hex(r[3:], 1, 10 ** 6)
 
 
 def mac(s):
@@ -396,6 +396,8 @@ def eval_misc(case):
                    'set_property': lambda: _sl(cls, 'prop', s)}
         if k in ('node', 'component', 'service', 'interface'):
             entries['create'] = lambda: _create(k, s)
+            if k == 'component':
+                entries['create-nic'] = lambda: _create_nic(s)       # a component that brings its own service and ports
             entries['rename'] = lambda: _rename(k, s)
             entries['name-assign'] = lambda: _rename(k, s, assign=True)
         for nm, fn in entries.items():
@@ -405,6 +407,8 @@ def eval_misc(case):
                 raised = None
             except Exception as e:
                 raised, st = type(e).__name__, None
+            if raised == 'HandleKeptRejectedName':
+                v.append((f'stored-after-reject/name/{k}/handle/{nm}', f'{nm}: {k} name {s!r} was rejected but the element handle kept it'))
             if not ok and raised is None:
                 v.append((f'accepts-outside/name/{k}/{nm}', f'{nm}: {k} name {s!r} is outside the documented pattern but was accepted (stored {st!r})'))
             if ok and raised is not None:
@@ -558,6 +562,16 @@ def _create(kind, s):
         return [d['Name'] for _, d in world.shared_store().graphs.nodes(data=True) if d['Class'] == 'ConnectionPoint' and d['Type'] == 'FacilityPort' and d['Name'] != 'fac-int'][0]
 
 
+class HandleKeptRejectedName(Exception):
+    pass
+
+
+def _create_nic(s):
+    t = topo()
+    t.nodes['n1'].add_component(name=s, model_type=ComponentModelType.SharedNIC_ConnectX_6)
+    return [d['Name'] for _, d in world.shared_store().graphs.nodes(data=True) if d['Class'] == 'Component' and d['Name'] != 'c1'][0]
+
+
 def _rename(kind, s, assign=False):
     t = topo()
     if kind == 'node':
@@ -569,10 +583,16 @@ def _rename(kind, s, assign=False):
     else:
         e = t.nodes['n1'].interface_list[0]
     nid = e.node_id
-    if assign:
-        e.name = s
-    else:
-        e.rename(s)
+    old = e.name
+    try:
+        if assign:
+            e.name = s
+        else:
+            e.rename(s)
+    except Exception:
+        if e.name != old:
+            raise HandleKeptRejectedName(f'the call raised, yet the handle now reports name {e.name!r} (model: {old!r})')
+        raise
     return [d['Name'] for _, d in world.shared_store().graphs.nodes(data=True) if d['NodeID'] == nid][0]
 
 
